@@ -1,5 +1,6 @@
 import OasisModel.Proto
 import OasisModel.Codec.Proof
+import OasisModel.Codec.Quote
 /-
 Driver for the codec model (`om_codec`), used as a checker: every input line carries the
 bytes fed to the real Go decoder/encoder *and* what the implementation answered; the model
@@ -13,6 +14,9 @@ recomputes the answer and replies `ok` or `DIVERGE <detail>`.
   node  <in> err <class> | ok L|I <full> <cv0> <cv1>
   entry <in|~> err <class> | ok nil|full|hash
   proof <v> <entries> err <class> | ok <writelog>
+  quote <allowTrailing 0|1> <in> err <class> | ok <consumed> <version> <teeType> <cdType>
+        (PCS quote framing; when the certification data is a PEM chain the implementation may also
+         answer `err pem`: PEM/x509 decoding is outside the model)
   enc-key <key> <bytes>
   enc-leaf <key> <value> <bytes>
   enc-inode <bits> <label> <leaf> <left> <right> <full> <cv0> <cv1>
@@ -114,6 +118,16 @@ def step (_ : Unit) (line : String) : Unit × String :=
           | .ok t => "ok " ++ showWriteLog t.writeLog
         expect m (" ".intercalate rest)
       | _, _ => "DIVERGE bad-op"
+    | "quote" :: tr :: inp :: rest =>
+      match parseHex inp with
+      | none => "DIVERGE bad-op"
+      | some d =>
+        let impl := " ".intercalate rest
+        match parseQuoteFrame d (tr == "1") with
+        | .error e => expect ("err " ++ e.name) impl
+        | .ok f =>
+          let m := s!"ok {f.consumed} {f.version} {f.teeType} {f.cdType}"
+          if f.isChain && impl == "err pem" then "ok" else expect m impl
     | ["enc-key", k, b] =>
       match parseHex k with
       | some k => expect (showHex (encodeKey k)) b
